@@ -114,12 +114,40 @@ func (p *c03Pool) tok(hash string) string {
 	return "x" + hash
 }
 
+// the names a certificate is to be found by, written down here from its leaf (not taken from
+// what the code under test put into Certificate.Names): the common name, the DNS names, the IP
+// addresses — lower-cased, the common name once
+func c03RefNames(c Certificate) []string {
+	leaf := c.Leaf
+	if leaf == nil {
+		leaf = c.Certificate.Leaf
+	}
+	if leaf == nil {
+		return c.Names
+	}
+	var out []string
+	if leaf.Subject.CommonName != "" {
+		out = append(out, strings.ToLower(leaf.Subject.CommonName))
+	}
+	for _, n := range leaf.DNSNames {
+		if n != leaf.Subject.CommonName {
+			out = append(out, strings.ToLower(n))
+		}
+	}
+	for _, ip := range leaf.IPAddresses {
+		if ip.String() != leaf.Subject.CommonName {
+			out = append(out, strings.ToLower(ip.String()))
+		}
+	}
+	return out
+}
+
 func (p *c03Pool) desc(c Certificate) string {
 	m := "0"
 	if c.managed {
 		m = "1"
 	}
-	return fmt.Sprintf("%s/%s/%s/%s/%s/0", p.tok(c.hash), c03Names(c.Names), c03List(c.Tags), m, c03Dash(c.issuerKey))
+	return fmt.Sprintf("%s/%s/%s/%s/%s/0", p.tok(c.hash), c03Names(c03RefNames(c)), c03List(c.Tags), m, c03Dash(c.issuerKey))
 }
 
 func (p *c03Pool) state(cache *Cache) string {
@@ -192,6 +220,7 @@ func c03MakePool(t testing.TB, now time.Time) *c03Pool {
 		{key: ec1, cn: "cn.example", dns: []string{"cn.example", "a.example"}, nb: now.Add(-day), na: now.Add(day)}, // 17 common name
 		{key: ec1, dns: []string{"s.example"}, nb: now.Add(-day), na: now.Add(90 * day), stored: true},               // 18 in storage
 		{key: ec2, dns: []string{"*.s.example"}, nb: now.Add(-day), na: now.Add(90 * day), stored: true},             // 19 in storage
+		valid(ec1, []string{"MiXed.Example"}),                                                                        // 20 a SAN that is not lower-case
 	}
 	p := &c03Pool{byHash: map[string]int{}}
 	for i, s := range specs {
@@ -256,7 +285,7 @@ var c03SNIs = []string{
 	"x.y.example", "z.x.y.example", "ip.example", "cn.example", "10.0.0.1", "default.test", "fallback.test", "nope.test",
 	"bücher.example", "BÜCHER.Example", "xn--bcher-kva.example", "s.example", "t.s.example", "u.t.s.example", "",
 	"a.example.", ".a.example", "*.example", "a_b.example", "bad name.example", "a..example", " a.example", "test",
-	"x.b.example ", "İ.example",
+	"x.b.example ", "İ.example", "mixed.example", "MIXED.Example",
 }
 
 var c03Locals = []string{"10.0.0.1:443", "[::1]:443", "192.0.2.7:8443", "[fe80::1%eth0]:443", "10.0.0.1", "nil"}
@@ -491,7 +520,13 @@ func TestVerifC03(t *testing.T) {
 			w.setCache(10, []int{0, 1, 2, 3, 4, 5, 6, 7}, sto) // 8 of 10: below
 			w.lookup("nope.test", "192.0.2.7:8443", "", "", 0)
 			w.lookup("s.example", "192.0.2.7:8443", "", "", 0)
-			o.Stat("scenarios", 20)
+			// a certificate whose SAN is not lower-case is found by the name in any case, before a wildcard
+			w.setCache(0, []int{3, 20}, false)
+			w.lookup("mixed.example", "192.0.2.7:8443", "", "", 0)
+			w.lookup("MIXED.Example", "192.0.2.7:8443", "", "", 0)
+			w.setCache(0, []int{20}, false)
+			w.lookup("mixed.example", "192.0.2.7:8443", "", "", 0)
+			o.Stat("scenarios", 23)
 		}
 
 		// 2. bounded-exhaustive: every ordered cache of <= k certificates of a core pool x every
